@@ -51,27 +51,28 @@ type explorer struct {
 	active int
 	stop   bool
 
-	paths        int
-	transitions  int
-	ends         map[string]int
-	cuts         map[string]int
-	assertStats  map[string]map[string]int
-	reachSeen    map[string]int
-	violations   []violation
-	inconclusive []string
-	unknownBr    int
-	queries      int64
-	perSolver    [4]int64
-	funcs        map[string]int
-	intrinsics   map[string]int
-	assumptions  map[string]bool
-	samples      []pathSummary
-	concord      []pathSummary // paths selected for native concordance
-	concordEvery int
-	maxTraceLen  int
-	wall         float64
-	budgetHit    bool
-	modelsTaken  int
+	paths         int
+	transitions   int
+	ends          map[string]int
+	cuts          map[string]int
+	assertStats   map[string]map[string]int
+	reachSeen     map[string]int
+	violations    []violation
+	inconclusive  []string
+	unknownBr     int
+	queries       int64
+	perSolver     [4]int64
+	funcs         map[string]int
+	intrinsics    map[string]int
+	assumptions   map[string]bool
+	samples       []pathSummary
+	concord       []pathSummary // paths selected for native concordance
+	concordEvery  int
+	maxTraceLen   int
+	wall          float64
+	budgetHit     bool
+	modelsTaken   int
+	modelsUnknown int
 }
 
 type exploreOpts struct {
@@ -304,9 +305,13 @@ func (x *explorer) runPath(pool []*Solver, prefix []decision) {
 				end = "infeasible"
 				ps.End = "infeasible:final"
 			case Unknown:
-				ps.End += "|model-unknown"
+				// the path's feasibility was established branch by branch; only
+				// the sample model for the native comparison is missing
 				x.mu.Lock()
-				x.inconclusive = append(x.inconclusive, "final path model unknown in "+x.harness)
+				x.modelsUnknown++
+				if m.pcUnknown || end == "run-panic" || end == "overflow" {
+					x.inconclusive = append(x.inconclusive, "final path model unknown on a path with undecided branches or a failure in "+x.harness)
+				}
 				x.mu.Unlock()
 			case Sat:
 				ps.Model = mod
